@@ -116,7 +116,9 @@ func (f *Formatter) formatInfixExpression(expr *ast.InfixExpression) *ChunkBuffe
 
 	operator := expr.Operator
 	if expr.Operator == "+" { // concatenation
-		if !f.conf.ExplicitStringConcat {
+		// The operator can only be omitted when the right operand is able to follow
+		// by juxtaposition: "foo" (bar) would be a function call and "foo" 1 a syntax error.
+		if !f.conf.ExplicitStringConcat && canJuxtapose(expr.Right) {
 			operator = ""
 		}
 	}
@@ -128,6 +130,16 @@ func (f *Formatter) formatInfixExpression(expr *ast.InfixExpression) *ChunkBuffe
 	buf.Append(f.formatExpression(expr.Right))
 
 	return buf
+}
+
+// canJuxtapose reports whether the expression may be concatenated to its left neighbor
+// without the explicit "+" operator.
+func canJuxtapose(expr ast.Expression) bool {
+	switch expr.(type) {
+	case *ast.String, *ast.Ident, *ast.IfExpression, *ast.FunctionCallExpression:
+		return true
+	}
+	return false
 }
 
 // Format prefix expression like `if(req.http.Foo, "foo", "bar")`
